@@ -36,6 +36,11 @@ def cases(tier):
                 continue
             for tr in TRANSFORMS_Q + (["perm:all4"] if tier != "quick" else []):
                 out.append((f, fv, tr))
+    if tier != "quick":
+        from vf.props import c04
+
+        for i, f in enumerate(c04.family_formulas(3)):
+            out.append((f, ("str", "cat", "ord")[i % 3], TRANSFORMS_Q[i % len(TRANSFORMS_Q)]))
     return out
 
 
